@@ -417,6 +417,14 @@ def main(tier_: str) -> int:
                                 n += 1
                                 if rt_bytes(bytes(m)) != 1:
                                     bad.append(f'{a}:{pair!r}')
+                        # a string field holds UTF-8 text (ISO/IEC 14496-12): two- and three-byte characters in place of ASCII ones
+                        if vals == ST and min(end, plen) - a >= 3:
+                            for seq in (b'\xc3\xa9', b'\xc2\xa9', b'\xe3\x82\xab'):
+                                m = bytearray(raw)
+                                m[lb.hdr + a:lb.hdr + a + len(seq)] = seq
+                                n += 1
+                                if rt_bytes(bytes(m)) != 1:
+                                    bad.append(f'{a}:{seq!r}')
                         nmut += n
                         lines.append({'ev': 'field', 'box': lb.name, 'field': fname, 'value_class': f'bytes of {f.name} ({n} mutations)' +
                                       (f' failing offset:value {bad[:6]}' if bad else ''), 'eq': 0 if bad else 1})
